@@ -614,6 +614,10 @@ def run(model, tier="quick"):
     res.ob("R-INPUT", f"no statement or call mutates an object stored in a frame cell (functions that mutate a parameter: "
                       f"{sorted(mutating)}; every call site hands them fresh objects)", "demeter/", ok=_nf == 0)
     res.floor("functions_mutating_a_parameter", len(mutating), 1)
+    from ..rules.fresh import fresh_rule
+    if "R-FRESH" not in res.rules:
+        res.rules.append("R-FRESH")
+    fresh_rule(model, res, scope=('demeter/core/', 'demeter/uniswap/', 'demeter/deribit/', 'demeter/aave/', 'demeter/squeeth/', 'demeter/gmx/', 'demeter/data/'))
     res.assumptions = ["pandas >= 3 copy-on-write: objects obtained from a frame by loc/iloc/[] never write through to it",
                        "the time index of every frame is sorted (data)", "strategy code is out of scope (the Strategy object owns "
                        "references to data and prices by design)"]
